@@ -55,7 +55,7 @@ Theorem C01_binary_rules_exact :
   /\ exact2_0 f_arctan2 (fun x y => 0 < y) vjp_arctan2_0 /\ exact2_1 f_arctan2 (fun x y => 0 < y) vjp_arctan2_1
   /\ exact2_0 f_hypot (fun x y => 0 < x ^ 2 + y ^ 2) vjp_hypot_0
   /\ exact2_1 f_hypot (fun x y => 0 < x ^ 2 + y ^ 2) vjp_hypot_1
-  /\ exact2_0 f_power (fun x y => 0 < x /\ y <> 0) vjp_power_0 /\ exact2_1 f_power (fun x y => 0 < x) vjp_power_1.
+  /\ exact2_0 f_power (fun x y => 0 < x) vjp_power_0 /\ exact2_1 f_power (fun x y => 0 < x) vjp_power_1.
 Proof.
   exact (conj r_add_0 (conj r_add_1 (conj r_subtract_0 (conj r_subtract_1 (conj r_multiply_0 (conj r_multiply_1
         (conj r_divide_0 (conj r_divide_1 (conj r_true_divide_0 (conj r_true_divide_1 (conj r_logaddexp_0
